@@ -14,10 +14,15 @@ cleanup() { git -C /repo worktree remove --force "$WT" 2>/dev/null; rm -rf "$WT"
 trap cleanup EXIT
 # where does the demo go? first line: "// place in <dir>/<file>" (free text): take the first token that looks like a path ending in _test.go
 DEMO="$SEED/demo_test.go.txt"
+DEMOCMD=$(python3 -c "import json,sys;print(json.load(open('$SEED/meta.json'))['demo_cmd'])")
 REL=$(head -5 "$DEMO" | grep -o '[A-Za-z0-9_./-]*_test\.go' | head -1)
 [ -z "$REL" ] && { echo "cannot find demo location"; exit 2; }
 REL=${REL#./}
-DEMOCMD=$(python3 -c "import json,sys;print(json.load(open('$SEED/meta.json'))['demo_cmd'])")
+if [ "$(dirname "$REL")" = "." ]; then
+  # bare file name: the package directory is the ./path argument of the demo command
+  PKG=$(echo "$DEMOCMD" | grep -o ' \./[A-Za-z0-9_/.-]*' | tail -1 | tr -d ' '); PKG=${PKG#./}; PKG=${PKG%/}
+  [ -n "$PKG" ] && [ "$PKG" != "..." ] && [ "$PKG" != "." ] && REL="$PKG/$REL"
+fi
 # normalise the command: run inside the worktree
 DEMOCMD=$(echo "$DEMOCMD" | sed -E "s#cd [^ ;&]+ *(&&|;) *##; s#GOFLAGS=[^ ]+ ##; s#GOPROXY=[^ ]+ ##")
 mkdir -p "$WT/$(dirname "$REL")"
